@@ -100,6 +100,12 @@ def interval(s: Sym, env: Callable[[Sym], Optional[Interval]]) -> Interval:
             cands = [_shr(a, c), _shr(a, d), _shr(b, c), _shr(b, d)]
             return (min(cands), max(cands))
         if op == "&":
+            # x & (2**k - 1) on a range inside one 2**k-aligned block is exact
+            for (lo, hi), (m0, m1) in (((a, b), (c, d)), ((c, d), (a, b))):
+                if m0 == m1 and m0 not in (INF, -INF) and m0 >= 0 and (int(m0) & (int(m0) + 1)) == 0 and lo not in (INF, -INF) and hi not in (INF, -INF):
+                    k = int(m0).bit_length()
+                    if (int(lo) >> k) == (int(hi) >> k):
+                        return (int(lo) & int(m0), int(hi) & int(m0))
             if a >= 0 and c >= 0:
                 return (0, min(b, d))
             if c >= 0:
@@ -108,6 +114,14 @@ def interval(s: Sym, env: Callable[[Sym], Optional[Interval]]) -> Interval:
                 return (0, b)
             k = max(_span(a, b), _span(c, d))
             return (-(2 ** k), 2 ** k - 1) if k != INF else TOP
+        if op == "^":
+            # x ^ 2**j on a range where bit j is constant is a shift of the range
+            for (lo, hi), (m0, m1) in (((a, b), (c, d)), ((c, d), (a, b))):
+                if m0 == m1 and m0 not in (INF, -INF) and m0 > 0 and (int(m0) & (int(m0) - 1)) == 0 and lo not in (INF, -INF) and hi not in (INF, -INF):
+                    j = int(m0).bit_length() - 1
+                    if (int(lo) >> j) == (int(hi) >> j):
+                        delta = -int(m0) if (int(lo) >> j) & 1 else int(m0)
+                        return (lo + delta, hi + delta)
         if op in ("|", "^"):
             k = max(_span(a, b), _span(c, d))
             if k == INF:
